@@ -209,11 +209,19 @@ def c09(tier, seed):
         nt0 = int(obs.stats.get('nontrivial', 0))
         ilp32_variant(obs, work, 'pad', 3, seed, places=(0, 1) if tier == 'quick' else (0, 1, 2, 3))
         obs.stats['nontrivial'] = nt0
+        # finalisation of real, consistent messages (built by the encoder of the same run): only the keys of the finalisation step count here
+        o2 = vlib.Obs()
+        run_split(o2, b, 'encode', 12000 if tier == 'quick' else 1200000, int(seed) + 5, nproc=8)
+        for k, x in o2.viol.items():
+            if 'pad-after-encode' in k or k.split(':')[0] in ('AddressSan', 'signal', 'hang'):
+                obs.add_viol(k, x['details'][0] if x['details'] else None, count=x['count'], source=x.get('source'))
+        obs.procs += o2.procs; obs.ended += o2.ended; obs.inconclusive += o2.inconclusive
+        obs.stat('evals', o2.stats.get('evals', 0))
         gnote = guided(obs, work, 'pad', tier, seed)
         cov = dict(distinct_nontrivial=int(obs.stats.get('nontrivial', 0)) // len(jobs), exhaustive=True,
                    rule='exhaustive message length 12..2044 x prior contents {all 0xFF, zero body + 0xFF tail, %d random} x %d '
                         '(seed, byte offset) runs: after Avtp_Vss_Pad the 200 KiB arena must equal the model (length field = '
-                        'ceil(n/4), pad field = (4-n%%4)%%4, bytes [n, n+pad) zero, nothing else); every length also in a buffer of exactly the padded size in front of an inaccessible page and, under ASan, in an exact-size heap block (nothing behind the pad bytes may be touched, not even rewritten with the same value); all 512 length values through the '
+                        'ceil(n/4), pad field = (4-n%%4)%%4, bytes [n, n+pad) zero, nothing else); every length also on messages just built by the encoder (datatype, path and value lengths that add up; 0..2 application bytes behind), in a buffer of exactly the padded size in front of an inaccessible page and, under ASan, in an exact-size heap block (nothing behind the pad bytes may be touched, not even rewritten with the same value); all 512 length values through the '
                         'dedicated setter/getter vs the generic accessors on 3 backgrounds.  distinct_nontrivial = distinct lengths + '
                         'distinct length-field values.  '
                         'The same sweep (3 backgrounds, 2-4 offsets) in freestanding 32-bit (ILP32), -DNDEBUG, -funsigned-char and clang MemorySanitizer builds.' % (R - 2, len(jobs)) + gnote)
